@@ -57,6 +57,7 @@ var (
 // c03Env is one miniredis plus the one go-zero client go-zero keeps per address.
 type c03Env struct {
 	mr    *miniredis.Miniredis
+	addr  string
 	store *redis.Redis // first Redis of the address: its hooks are the client's hooks
 
 	down      atomic.Bool  // server answers every command with an error reply
@@ -108,7 +109,7 @@ func c03NewEnv() (*c03Env, error) {
 	if err != nil {
 		return nil, err
 	}
-	e := &c03Env{mr: mr}
+	e := &c03Env{mr: mr, addr: mr.Addr()}
 	e.installPreHook()
 	e.store = redis.New(mr.Addr(), redis.WithHook(c03Hook{e}))
 	// Successful commands first: go-zero's per-address breaker only starts to reject when
@@ -137,6 +138,13 @@ func (e *c03Env) installPreHook() {
 	})
 }
 
+// reset clears fault switches a failed case may have left behind.
+func (e *c03Env) reset() {
+	e.down.Store(false)
+	e.failPre.Store(0)
+	e.failPost.Store(0)
+}
+
 // pad issues n successful PINGs (accepted by the breaker).
 func (e *c03Env) pad(n int) {
 	for i := 0; i < n; i++ {
@@ -146,7 +154,7 @@ func (e *c03Env) pad(n int) {
 
 // newStore returns another redis.Redis for the same address ("sharing a store"): go-zero
 // resolves it to the same client.
-func (e *c03Env) newStore() *redis.Redis { return redis.New(e.mr.Addr()) }
+func (e *c03Env) newStore() *redis.Redis { return redis.New(e.addr) }
 
 var (
 	c03Once    sync.Once
@@ -162,6 +170,7 @@ func c03Server(f failer) *c03Env {
 	if c03MainErr != nil {
 		f.Skipf("inconclusive: cannot start miniredis: %v", c03MainErr)
 	}
+	c03Main.reset()
 	return c03Main
 }
 
